@@ -11,9 +11,14 @@ it is appended to the trace log (flushed with os.write, survives os._exit), then
   * a scheduler (C17: Scheduler for writer threads, PipeScheduler for writer processes) may block the caller until
     the driver releases exactly this one file operation,
   * plan.crash_at == k  -> partial effect (a prefix of the data for write) then os._exit(77),
-  * k in plan.fail_at    -> partial effect then raise OSError(errno).
+  * k in plan.fail_at    -> partial effect then raise OSError(errno),
+  * k in plan.short_at   -> ONLY for a raw os.write(fd, data) on a tracked sandbox fd (op `os_write`): write a PROPER PREFIX
+    of the data and RETURN that count without raising -- what POSIX write(2) may do when the disk / quota / RLIMIT_FSIZE
+    runs out inside the data.  Not applicable to the buffered file-object path (`write` of the proxy): CPython's
+    BufferedWriter loops on short writes, the caller cannot observe one; a `short` planned there is ignored.
 Op names: lstat exists:<w> ospath_exists:<w> is_symlink:<w> stat:<w> mkdir mkstemp fchmod fdopen write flush
-fsync close open_read:<w> read close_read unlink:<w> replace   (<w> = target | temp | other).
+fsync close open_read:<w> read close_read unlink:<w> replace   (<w> = target | temp | other); outside the modelled
+protocol: os_write / os_close (raw descriptor of mkstemp or of an os.open on a sandbox path), UNEXPECTED:<what>.
 """
 from __future__ import annotations
 
@@ -30,7 +35,7 @@ STATE = None
 
 
 class Plan:
-    def __init__(self, root, target, log_fd=None, crash_at=None, fail_at=None, scheduler=None):
+    def __init__(self, root, target, log_fd=None, crash_at=None, fail_at=None, scheduler=None, short_at=None):
         self.root = os.path.abspath(root)
         self.target = os.path.abspath(target)
         self.log_fd = log_fd
@@ -41,7 +46,9 @@ class Plan:
         self.trace = []
         self.temps = set()
         self.fd_path = {}
-        self.raw_fds = set()
+        self.raw_fds = set()          # descriptors from a direct os.open(.., O_WRONLY|..) on a sandbox path
+        self.raw_owned = set()        # mkstemp descriptors not (yet) handed to os.fdopen: raw os.write/os.close on them are ops
+        self.short_at = set(short_at or ())
         self.lock = threading.Lock()
         self.tls = threading.local()
         self.enabled = True
@@ -243,6 +250,7 @@ def install():
                 fd, path = r_mkstemp(*a, **kw)
             STATE.temps.add(os.path.abspath(path))
             STATE.fd_path[fd] = path
+            STATE.raw_owned.add(fd)
             return fd, path
         return r_mkstemp(*a, **kw)
 
@@ -256,6 +264,7 @@ def install():
             _op("fdopen")
             with _Nested():
                 f = r_fdopen(fd, *a, **kw)
+            STATE.raw_owned.discard(fd)       # the file object owns the descriptor now
             return WriteProxy(f, STATE.fd_path[fd])
         return r_fdopen(fd, *a, **kw)
 
@@ -304,15 +313,24 @@ def install():
         return r_osopen(path, flags, *a, **kw)
 
     def w_oswrite(fd, data):
-        if STATE is not None and fd in STATE.raw_fds and _active():
-            _op("write", lambda: r_oswrite(fd, data[: max(1, len(data) // 2)]))
+        if STATE is not None and (fd in STATE.raw_fds or fd in STATE.raw_owned) and _active():
+            half = len(data) // 2
+            k = _op("os_write", lambda: r_oswrite(fd, data[: max(1, half)]) if data else None)
+            if k in STATE.short_at and len(data) > 0:
+                return r_oswrite(fd, data[:half]) if half else 0      # proper prefix, count returned, no exception
         return r_oswrite(fd, data)
 
     def w_osclose(fd):
-        if STATE is not None and fd in STATE.raw_fds:
+        if STATE is not None and (fd in STATE.raw_fds or fd in STATE.raw_owned):
             STATE.raw_fds.discard(fd)
+            STATE.raw_owned.discard(fd)
+            STATE.fd_path.pop(fd, None)
             if _active():
-                _op("close")
+                try:
+                    _op("os_close")
+                except OSError:
+                    r_osclose(fd)      # close(2) releases the descriptor even when it reports an error
+                    raise
         return r_osclose(fd)
 
     def unexpected(name, real):
